@@ -48,6 +48,11 @@ func genMux(seed uint64, n int, maxOps int, demux bool, emit func(interface{})) 
 			emit(sc)
 			continue
 		}
+		if s%12 == 7 {
+			genMuxReuseAndWidePID(r, &sc, demux)
+			emit(sc)
+			continue
+		}
 		nops := r.rangeInt(3, maxOps)
 		var live []int // pids as addressed in the scenario (explicit or -k)
 		autoN := 0
@@ -146,11 +151,36 @@ func genMuxPMTBoundary(r *rng, sc *muxScenario, k int) {
 	for j := 0; j < 4; j++ {
 		t := targets[(k+j*3+r.intn(2))%len(targets)]
 		c := t - 4 - 5*n - 5 - 2 // content bytes of the user-defined descriptor of one more stream
+		if j == 3 && r.boolean() {
+			c = r.pick(256+44, 300, 400, 511, 513) // a body that does not fit the 8-bit descriptor_length: refused like any PMT that is too large
+		}
 		sc.Ops = append(sc.Ops, muxOp{Op: "add", PID: 0x180, ST: 6, DK: fmt.Sprintf("ud%d", c)})
 		sc.Ops = append(sc.Ops, muxOp{Op: r.pickS("tables", "data"), PID: 0x100, Len: r.rangeInt(1, 300), Hdr: "pts", AF: r.pickS("none", "rai")})
 		sc.Ops = append(sc.Ops, muxOp{Op: "data", PID: 0x100, Len: r.rangeInt(1, 300), Hdr: "pts", AF: "none"})
 		sc.Ops = append(sc.Ops, muxOp{Op: "remove", PID: 0x180})
 		sc.Ops = append(sc.Ops, muxOp{Op: "tables"}, muxOp{Op: "data", PID: 0x100, Len: r.rangeInt(1, 300), Hdr: "pts", AF: "rai"})
+	}
+}
+
+// genMuxReuseAndWidePID: (a) one adaptation field object handed to several WriteData calls, among them calls whose field leaves no room for
+// the PES header (adaptation-only first packet) - the object comes back clean every time; (b) an explicit PID wider than 13 bits: the
+// stream goes out on the PID's 13 low bits and nothing else of the header moves
+func genMuxReuseAndWidePID(r *rng, sc *muxScenario, demux bool) {
+	sc.Reuse = true
+	wide := r.pick(0x4123, 0x2123, 0x8123, 0xe123)
+	sc.Ops = append(sc.Ops, muxOp{Op: "add", PID: 0x100, ST: 27, DK: "none"}, muxOp{Op: "setpcr", PID: 0x100},
+		muxOp{Op: "add", PID: wide, ST: 15, DK: r.pickS("none", "si")}, muxOp{Op: "tables"})
+	for i, n := 0, r.rangeInt(6, 14); i < n; i++ {
+		hdr := r.pickS("pts", "ptsdts", "full")
+		af := r.pickS("bigrai", "bigrai", "rai", "raipcr", "priv10", "none")
+		if demux && af == "bigrai" {
+			af = "raipcr"
+		}
+		pid := 0x100
+		if i%3 == 2 {
+			pid = wide
+		}
+		sc.Ops = append(sc.Ops, muxOp{Op: "data", PID: pid, Len: r.pick(1, 100, 184, 185, 400, 1000), Hdr: hdr, AF: af})
 	}
 }
 
